@@ -43,7 +43,7 @@ def run(ck):
         ck.require_monitor(m)
     for r in ("all-pass-multi-share", "mixed-existing-new", "test-fails-on-last-share", "test-fails-elsewhere",
               "bad-enabler", "bad-enabler-only-on-one-share", "enabler-any-when-no-shares", "late-write-raises",
-              "late-vector-same-share-raises", "delete-in-multi-share-request", "overlapping-write-vectors"):
+              "late-vector-same-share-raises", "delete-in-multi-share-request"):
         ck.require_reach(r)
     ck.exhaustive = False
 
@@ -110,9 +110,7 @@ def _one_case(ck, rng, case, ci, BadWriteEnablerError, MAX):
                 o = rng.choice([0, rng.randint(0, len(cur) + 30), len(cur), len(cur) + rng.choice([1, 700])])
                 n = rng.choice([1, 2, 20, 400])
                 if any(o < b and a < o + n for a, b in taken):
-                    if rng.random() < .8:
-                        continue
-                    ck.hit("overlapping-write-vectors")     # applied in list order: the later one wins
+                    continue     # overlapping write vectors are forbidden by interfaces.py (order unspecified)
                 taken.append((o, o + n))
                 datav.append((o, S.rand_bytes(rng, n)))
             after = len(S.apply_writes(cur, datav, None))
@@ -301,3 +299,4 @@ def _one_case(ck, rng, case, ci, BadWriteEnablerError, MAX):
 #  7. server.py: tests on missing shares always pass              CAUGHT (testv-outcome-wrong)
 #  8. server.py: each share written right after its own test      CAUGHT (failed-test-modified-shares, reads-not-prestate)
 # The proposed fix (validate every write vector against MAX_SIZE before the first write) makes this check exit 0.
+#  9. server.py _evaluate_write_vectors: write vectors sorted by end offset (seeded C23-5)   CAUGHT (post-state-differs-from-model)
